@@ -227,6 +227,18 @@ def write_replay(prop_id, viol):
     path = os.path.join(d, sha([viol["key"], viol["case"]]) + ".json")
     with open(path, "w") as fh:
         fh.write(jdump(body, indent=1))
+    # a plain unit test that replays this one case without the explorer (fails while the violation persists)
+    test = os.path.join(d, "test_" + os.path.basename(path)[:-5] + ".py")
+    with open(test, "w") as fh:
+        fh.write(
+            '"""Generated by the harness: replays one violating case of %s.\n'
+            'Run with:  cd %s && VERIF_REPO=${VERIF_REPO:-/repo} PYTHONHASHSEED=0 OMP_NUM_THREADS=1 '
+            '/venv/bin/python -B -m pytest -q -p no:cacheprovider %s\n"""\n'
+            "import os\nimport sys\n\nsys.path.insert(0, %r)\n\n\n"
+            "def test_replay():\n"
+            "    from mc import cli\n"
+            "    assert cli.main([%r, '--replay', %r]) == 0, %r\n"
+            % (prop_id, VERIF, test, VERIF, prop_id, path, viol["what"][:300]))
     return path
 
 
